@@ -41,6 +41,10 @@ pub struct Case {
     pub parts: Vec<f64>,
     pub rhs: Vec<f64>,
     pub sing: u8,
+    /// the whole matrix (real and derivative parts) is multiplied by 2^scale2 (exact), |scale2| <= 60:
+    /// every routine is scale-covariant, a threshold on absolute magnitudes is not
+    #[serde(default)]
+    pub scale2: i8,
 }
 
 pub struct C12;
@@ -204,17 +208,25 @@ fn entry_flat(lay: &Layout, re: f64, parts: &[f64], off: usize, sym_off: Option<
     Flat { vals, pres: vec![true; lay.blocks.len()] }
 }
 
-fn build_matrix(lay: &Layout, re: &[Vec<f64>], parts: &[f64], symmetric: bool) -> Mat {
+fn build_matrix(lay: &Layout, re: &[Vec<f64>], parts: &[f64], symmetric: bool, s: f64) -> Mat {
     let n = re.len();
     let mut flats = vec![];
     for i in 0..n {
         for j in 0..n {
             let off = i * n + j;
             let sym = if symmetric { Some(i.min(j) * n + i.max(j)) } else { None };
-            flats.push(entry_flat(lay, re[i][j], parts, off, sym));
+            let mut f = entry_flat(lay, re[i][j], parts, off, sym);
+            for v in f.vals.iter_mut() {
+                *v *= s;
+            }
+            flats.push(f);
         }
     }
     Mat { n, flats }
+}
+/// 2^scale2 for the routines that are checked under scaling
+fn scale_of(case: &Case) -> f64 {
+    2f64.powi(case.scale2.clamp(-60, 60) as i32)
 }
 
 fn jets(lay: &Layout, alg: &Arc<Alg>, flats: &[Flat]) -> Vec<Jet> {
@@ -229,7 +241,7 @@ struct Resid {
 }
 
 /// check residual jets: |value| <= c * u * scale * m  (m: summed magnitude of the terms of the identity)
-fn check_residual(name: &str, res: &[Jet], lay: &Layout, alg: &Arc<Alg>, factor: &dyn Fn(u8) -> f64, pmax: f64) -> Result<Resid, (String, String)> {
+fn check_residual(name: &str, res: &[Jet], lay: &Layout, alg: &Arc<Alg>, factor: &dyn Fn(u8) -> f64, pmax: f64, fscale: f64) -> Result<Resid, (String, String)> {
     let u = <f64 as Flt>::U;
     let mut worst = 0.0f64;
     let mut detail = String::new();
@@ -241,7 +253,7 @@ fn check_residual(name: &str, res: &[Jet], lay: &Layout, alg: &Arc<Alg>, factor:
                 return Err((format!("C12/{name}/nonfinite"), format!("{name}: residual entry {idx} part {} is not finite", s.name)));
             }
             // magnitude of the identity's terms, at least the scale of the input parts of that order
-            let scale = c.m.max(pmax.powi(s.order as i32));
+            let scale = c.m.max(fscale * pmax.powi(s.order as i32));
             let tol = factor(s.order) * u * scale;
             let ratio = c.v.abs() / (u * scale);
             if ratio > worst {
@@ -323,7 +335,11 @@ where
     match case.routine {
         Routine::OwnSolve | Routine::OwnInverse | Routine::OwnDet => {
             let (re, kappa, odd, swapped) = general_matrix(case, n);
-            let m = build_matrix(&lay, &re, &case.parts, false);
+            let s = scale_of(case);
+            if s != 1.0 {
+                st.class("matrix scaled by a power of two");
+            }
+            let m = build_matrix(&lay, &re, &case.parts, false, s);
             let a = to_arr2(&m);
             let lu = match LU::new(a) {
                 Ok(l) => l,
@@ -337,7 +353,7 @@ where
                     let x = lu.solve(&b);
                     let xj = jets(&lay, &alg, &x.iter().map(|v| v.to_flat(&dims)).collect::<Vec<_>>());
                     let bj = jets(&lay, &alg, &bf);
-                    check_residual("own-lu-solve", &resid_axb(&alg, &aj, &xj, &bj, n), &lay, &alg, &factor, pmax)
+                    check_residual("own-lu-solve", &resid_axb(&alg, &aj, &xj, &bj, n), &lay, &alg, &factor, pmax, 1.0)
                 }
                 Routine::OwnInverse => {
                     let inv = lu.inverse();
@@ -355,7 +371,7 @@ where
                             res.push(acc);
                         }
                     }
-                    check_residual("own-lu-inverse", &res, &lay, &alg, &factor, pmax)
+                    check_residual("own-lu-inverse", &res, &lay, &alg, &factor, pmax, 1.0)
                 }
                 _ => {
                     let det = lu.determinant().to_flat(&dims);
@@ -366,7 +382,7 @@ where
                     for (c, w) in diff.c.iter_mut().zip(&want.c) {
                         c.m = w.m.max(c.m);
                     }
-                    check_residual("own-lu-determinant", &[diff], &lay, &alg, &factor, pmax)
+                    check_residual("own-lu-determinant", &[diff], &lay, &alg, &factor, pmax, s.powi(n as i32))
                 }
             };
             match r {
@@ -385,7 +401,11 @@ where
         }
         Routine::OwnEigen => {
             let (re, gap, nrm) = symmetric_matrix(case, n);
-            let m = build_matrix(&lay, &re, &case.parts, true);
+            let s = scale_of(case);
+            if s != 1.0 {
+                st.class("matrix scaled by a power of two");
+            }
+            let m = build_matrix(&lay, &re, &case.parts, true, s);
             let a = to_arr2(&m);
             let (l, v) = jacobi_eigenvalue(a.clone(), 200);
             let aj = jets(&lay, &alg, &m.flats);
@@ -408,6 +428,7 @@ where
                     res.push(acc.sub(&vj[i * n + j].mul(&lj[j])));
                 }
             }
+            let mut res_orth = vec![];
             for i in 0..n {
                 for j in 0..n {
                     let mut acc = jzero(&alg);
@@ -417,7 +438,7 @@ where
                     if i == j {
                         acc = acc.add_scalar(-R::ONE);
                     }
-                    res.push(acc);
+                    res_orth.push(acc);
                 }
             }
             // iterative routine: calibrated, gap-scaled tolerance per order (DESIGN 4-C12)
@@ -428,7 +449,16 @@ where
             if e0.re().to_bits() != l[0].re().to_bits() || v0.len() != n {
                 return Err(fail("C12/own-eigen/smallest_ev".into(), "smallest_ev differs from the first eigenpair of jacobi_eigenvalue".into(), &m));
             }
-            match check_residual("own-jacobi-eigen", &res, &lay, &alg, &factor, pmax) {
+            let both = check_residual("own-jacobi-eigen", &res, &lay, &alg, &factor, pmax, s).and_then(|r1| {
+                check_residual("own-jacobi-eigen", &res_orth, &lay, &alg, &factor, pmax, 1.0).map(|r2| {
+                    let mut by = r1.by_order;
+                    for o in 0..5 {
+                        by[o] = by[o].max(r2.by_order[o]);
+                    }
+                    Resid { worst: r1.worst.max(r2.worst), detail: r1.detail, by_order: by }
+                })
+            });
+            match both {
                 Ok(rs) => {
                     for o in 0..=lay.max_order().min(4) {
                         st.ratio(&format!("OwnEigen/order{o}: residual/(n u amp^(1+2o) m)"), rs.by_order[o] / (n as f64 * amp.powi(1 + 2 * o as i32)));
@@ -462,7 +492,7 @@ where
         _ => {
             // singular stratum: must be reported, never non-finite output
             let re = singular_matrix(case, n);
-            let m = build_matrix(&lay, &re, &case.parts, false);
+            let m = build_matrix(&lay, &re, &case.parts, false, scale_of(case));
             match LU::new(to_arr2(&m)) {
                 Err(_) => {
                     st.class("singular matrix reported by the crate's LU");
@@ -495,7 +525,8 @@ where
     match case.routine {
         Routine::NaSolve | Routine::NaInverse | Routine::NaDet => {
             let (re, kappa, _odd, swapped) = general_matrix(case, n);
-            let m = build_matrix(&lay, &re, &case.parts, false);
+            let s = scale_of(case);
+            let m = build_matrix(&lay, &re, &case.parts, false, s);
             let a = to_dm(&m);
             let aj = jets(&lay, &alg, &m.flats);
             let factor = |o: u8| 64.0 * n as f64 * (1.0 + kappa).powi(1 + o as i32);
@@ -508,7 +539,7 @@ where
                     };
                     let xj = jets(&lay, &alg, &x.iter().map(|v| v.to_flat(&dims)).collect::<Vec<_>>());
                     let bj = jets(&lay, &alg, &bf);
-                    check_residual("na-lu-solve", &resid_axb(&alg, &aj, &xj, &bj, n), &lay, &alg, &factor, pmax)
+                    check_residual("na-lu-solve", &resid_axb(&alg, &aj, &xj, &bj, n), &lay, &alg, &factor, pmax, 1.0)
                 }
                 Routine::NaInverse => {
                     let inv = match a.try_inverse() {
@@ -529,7 +560,7 @@ where
                             res.push(acc);
                         }
                     }
-                    check_residual("na-inverse", &res, &lay, &alg, &factor, pmax)
+                    check_residual("na-inverse", &res, &lay, &alg, &factor, pmax, 1.0)
                 }
                 _ => {
                     let det = a.determinant().to_flat(&dims);
@@ -539,7 +570,7 @@ where
                     for (c, w) in diff.c.iter_mut().zip(&want.c) {
                         c.m = w.m.max(c.m);
                     }
-                    check_residual("na-determinant", &[diff], &lay, &alg, &factor, pmax)
+                    check_residual("na-determinant", &[diff], &lay, &alg, &factor, pmax, s.powi(n as i32))
                 }
             };
             match r {
@@ -554,7 +585,7 @@ where
         }
         Routine::NaEigen => {
             let (re, gap, nrm) = symmetric_matrix(case, n);
-            let m = build_matrix(&lay, &re, &case.parts, true);
+            let m = build_matrix(&lay, &re, &case.parts, true, 1.0);
             let a = to_dm(&m);
             let eig = a.symmetric_eigen();
             // KNOWN finding K2: non-finite derivative parts when an off-diagonal REAL part is exactly zero
@@ -594,7 +625,7 @@ where
             let amp = 1.0 + nrm / gap;
             let strict = |o: u8| 64.0 * n as f64 * amp.powi(1 + 2 * o as i32);
             let real_only = |o: u8| if o == 0 { 1.0e7 * amp } else { f64::INFINITY };
-            match check_residual("na-symmetric-eigen", &res, &lay, &alg, &real_only, pmax) {
+            match check_residual("na-symmetric-eigen", &res, &lay, &alg, &real_only, pmax, 1.0) {
                 Ok(rs) => {
                     st.ratio("NaEigen/order0: residual/(u amp m)", rs.by_order[0] / amp);
                     // derivative parts: conditioning-scaled tolerance of the property; beyond it the
@@ -615,7 +646,7 @@ where
         }
         _ => {
             let re = singular_matrix(case, n);
-            let m = build_matrix(&lay, &re, &case.parts, false);
+            let m = build_matrix(&lay, &re, &case.parts, false, scale_of(case));
             let a = to_dm(&m);
             let inv = a.clone().try_inverse();
             let b = DVector::from_fn(n, |i, _| T::from_flat(&dims, &bf[i]));
@@ -682,8 +713,9 @@ impl Property for C12 {
             proptest::collection::vec(any::<u8>(), 36),
             proptest::collection::vec(part_value(), 64),
             proptest::collection::vec(-3.0f64..3.0, 6),
+            prop_oneof![2 => Just(0i8), 1 => -60i8..=60],
         )
-            .prop_map(|((routine, ty, n, high_kappa, sing), angles, sv, perm, parts, rhs)| Case { routine, ty, n, angles, sv, perm, high_kappa, parts, rhs, sing })
+            .prop_map(|((routine, ty, n, high_kappa, sing), angles, sv, perm, parts, rhs, scale2)| Case { routine, ty, n, angles, sv, perm, high_kappa, parts, rhs, sing, scale2 })
             .boxed()
     }
     fn check(case: &Case, st: &mut Stats) -> Verdict {
@@ -720,6 +752,7 @@ impl Property for C12 {
                     parts: vec![1.5, -0.75, 2.0, 0.625, -1.25, 3.0, -0.5, 1.0, 0.25, -2.0, 0.875, 1.75, -3.0, 0.375, 2.5, -1.5, 0.5],
                     rhs: vec![1.0, -2.0, 0.5],
                     sing: 0,
+                    scale2: 0,
                 });
             }
         }
@@ -727,12 +760,12 @@ impl Property for C12 {
     }
     fn cases(tier: Tier) -> u64 {
         match tier {
-            Tier::Quick => 40_000,
-            Tier::Thorough => 2_000_000,
+            Tier::Quick => 400_000,
+            Tier::Thorough => 10_000_000,
         }
     }
     fn rule() -> String {
-        "generated: size n in 1..6; general matrices P (Q1 D Q2) with Givens-product orthogonal factors, singular values in [0.5,2] (condition number <= 4 known by construction; 20%: up to 1e4) and a random row permutation (pivoting paths, both parities); symmetric matrices Q L Q^T with eigenvalue gaps >= 0.25 (20%: real part already diagonal or block-diagonal, only the derivative parts couple); every entry carries arbitrary derivative parts (symmetric for the eigen routines); right-hand sides; scalar types Dual64, Dual2_64, DualSVec64<2>, HyperDual64, Dual3_64 and the nested Dual<Dual64>, Dual2<Dual64> for the crate's own LU / Jacobi / norm and Dual64, Dual2_64, DualSVec64<2>, Dual2SVec64<2> for nalgebra's generic LU, inverse, determinant, symmetric_eigen; singular stratum: exact dyadic matrices with a zero column / repeated row / dependent row and non-zero derivative parts. Oracle = validity predicates evaluated in the reference algebra on the library's output: A x = b, A A^-1 = I, det = Leibniz expansion (all parts, which contains Jacobi's formula), A V = V diag(lambda), V^T V = I, lambda ascending (crate Jacobi), which contains Hellmann-Feynman; tolerance 64 n u (1+kappa)^(1+order) * (summed magnitude of the identity's terms) for the direct methods, crate Jacobi 64 n u amp^(1+2 order) with amp = 1 + norm/gap; nalgebra symmetric_eigen: real part 1e7 u amp (its own accuracy), derivative parts 64 n u amp^(1+2 order) - cases beyond that are occurrences of the KNOWN finding C12/na-symmetric-eigen/derivative-parts (excluded and counted); the singular stratum must be reported (Err / None / false) and never yield non-finite output. Non-trivial: n >= 3, a row swap happened, non-zero derivative parts.".into()
+        "generated: size n in 1..6; general matrices P (Q1 D Q2) with Givens-product orthogonal factors, singular values in [0.5,2] (condition number <= 4 known by construction; 20%: up to 1e4) and a random row permutation (pivoting paths, both parities); symmetric matrices Q L Q^T with eigenvalue gaps >= 0.25 (20%: real part already diagonal or block-diagonal, only the derivative parts couple); every entry carries arbitrary derivative parts (symmetric for the eigen routines); right-hand sides; one case in three multiplies the whole matrix (real and derivative parts) by 2^k, |k| <= 60 (exact; all routines are scale-covariant, nalgebra's symmetric_eigen excepted from scaling); scalar types Dual64, Dual2_64, DualSVec64<2>, HyperDual64, Dual3_64 and the nested Dual<Dual64>, Dual2<Dual64> for the crate's own LU / Jacobi / norm and Dual64, Dual2_64, DualSVec64<2>, Dual2SVec64<2> for nalgebra's generic LU, inverse, determinant, symmetric_eigen; singular stratum: exact dyadic matrices with a zero column / repeated row / dependent row and non-zero derivative parts. Oracle = validity predicates evaluated in the reference algebra on the library's output: A x = b, A A^-1 = I, det = Leibniz expansion (all parts, which contains Jacobi's formula), A V = V diag(lambda), V^T V = I, lambda ascending (crate Jacobi), which contains Hellmann-Feynman; tolerance 64 n u (1+kappa)^(1+order) * (summed magnitude of the identity's terms) for the direct methods, crate Jacobi 64 n u amp^(1+2 order) with amp = 1 + norm/gap; nalgebra symmetric_eigen: real part 1e7 u amp (its own accuracy), derivative parts 64 n u amp^(1+2 order) - cases beyond that are occurrences of the KNOWN finding C12/na-symmetric-eigen/derivative-parts (excluded and counted); the singular stratum must be reported (Err / None / false) and never yield non-finite output. Non-trivial: n >= 3, a row swap happened, non-zero derivative parts.".into()
     }
     fn assumptions() -> Vec<String> {
         vec![
